@@ -244,11 +244,12 @@ META = {
                                 "thorough": ["regenerate", "regen_scripted", "regen_empty", "regen_full", "regen_partial",
                                              "regen_on_scan", "regen_on_vcall", "regen_selects_into_subcall"]}},
     "C05": {"LEVEL": "exploration", "RULE": TM_RULE + "; transitions: update, regenerate, mh, mala, hmc, lane indexing, "
-            "resample_vectorized_trace, jit round trip, two-path telescoping update", "COMPONENTS": GFI_COMPONENTS,
+            "resample_vectorized_trace, jit round trip, two-path telescoping update, fork / checkout of older traces (the history is "
+            "a tree) with every operation's input trace and constraint map required to stay bit-identical", "COMPONENTS": GFI_COMPONENTS,
             "ASSUMPTIONS": COMMON_ASSUME + ["PPL-ref reference trace is the oracle; provenance of observed addresses tracked by the machine"],
-            "REQUIRED_PROBES": {"quick": ["update", "regenerate", "mh", "jit_roundtrip", "telescope"],
+            "REQUIRED_PROBES": {"quick": ["update", "regenerate", "mh", "jit_roundtrip", "telescope", "fork", "checkout"],
                                 "thorough": ["update", "regenerate", "mh", "mala", "hmc", "jit_roundtrip", "telescope",
-                                             "lane_index", "lane_resample", "recovered_after_fault"]}},
+                                             "lane_index", "lane_resample", "recovered_after_fault", "fork", "checkout"]}},
     "C02": {
         "LEVEL": "exploration",
         "RULE": "case = (generated program, argument, seeded history of generate calls each with a seeded subset of the "
